@@ -95,7 +95,7 @@ Proof.
   pose proof (P_nth H P PV _ _ En) as V.
   destruct (valid_conj H _ _ V) as (V1 & V2 & V3 & V4 & V5 & V6 & V7).
   unfold replicate in Er. destruct (precheck H c skip st b) as [k| |] eqn:Ep; cbn [bind] in Er; try discriminate.
-  unfold perform in Er. destruct (s_cap st <=? lenN (live (s_tail st))); try discriminate.
+  unfold perform in Er. destruct (s_cap st <=? lenN (s_tail st)); try discriminate.
   inversion Er; subst st'; clear Er.
   destruct (precheck_inv H _ _ _ _ _ Ep) as (hdr0 & xes0 & tr0 & Epar0 & Kh & Ke & Keh & Ksk & Kid & Kbl1 & Kbl2 & Kpa).
   rewrite Epar in Epar0.
